@@ -38,6 +38,9 @@ pub fn drive(t: &mut Tracer, r: &mut Rng, n: usize) {
                     t.call("Zoned.fromLocal", json!({"zone": zone, "w": w, "dis": *r.pick(&DIS)})); }
                 2 if r.chance(1, 5) => { let day = near(r, &ats, 90_000).div_euclid(86_400);
                     t.call("Zoned.fromDate", json!({"zone": zone, "day": day, "tt": *r.pick(&["none", "midnight"])})); }
+                2 if r.chance(1, 4) => { let near_t = if r.chance(1, 2) && !ats.is_empty() { *r.pick(&ats) - r.range(1, 61) } else { near(r, &ats, 4000) };
+                    t.call("Zoned.text", json!({"zone": zone, "t": near_t, "fd": r.range(0, 9), "unit": *r.pick(&[1, 60]),
+                                                "mode": *r.pick(&["trunc", "ceil", "expand", "floor", "halfExpand", "halfTrunc", "halfCeil", "halfFloor"]), "via": *r.pick(&["zoned", "instant"])})); }
                 2 => { if r.chance(1, 2) { t.call("Zoned.wall", json!({"zone": zone, "t": near(r, &ats, 4000)})); }
                        else { t.call("Zoned.views", json!({"zone": zone, "t": near(r, &ats, 4000), "via": *r.pick(&VIAS)})); } }
                 _ => { let o = *r.pick(&offs); let w = near(r, &ats, 50_000) + o;
